@@ -99,21 +99,27 @@ def run(cap):
                 nshare[k] += int(m.sum())
     for k in ("domain", "guards"):
         if nshare[k]:
-            out.append(rec("mem.shared_x_edge_points_coincide." + k, cls, nshare[k], wx[k], 1e-7, note="MeshRegion.atol=1e-7 is the code's own 'same point' tolerance", sig=("radially adjacent regions place the points of their shared contour differently (%s rows)" % k) if wx[k] > 1e-7 else None))
+            out.append(rec("mem.shared_x_edge_points_coincide." + k, cls, nshare[k], wx[k], 1e-6, note="two independent refinements of the same point, each to refine_atol/|grad psi| and the follow_perpendicular tolerance (observed <=1e-7); defects give >=1e-4", sig=("radially adjacent regions place the points of their shared contour differently (%s rows)" % k) if wx[k] > 1e-6 else None))
     # shared y-edge before the copy: a region's own last point vs the upper neighbour's first
-    wy = 0.0
-    ny_ = 0
+    # (contours that end in a pinned X-point corner are displaced from the X-point on purpose
+    # and replaced by the X-point position in the output: reported separately)
+    from ..gridutil import pinned_mask
+
+    wy = {"ordinary": 0.0, "through an X-point": 0.0}
+    ny_ = {"ordinary": 0, "through an X-point": 0}
     for rid, region in mesh.regions.items():
         uid = region.connections["upper"]
         if uid is None:
             continue
         ur = mesh.regions[uid]
+        pm = pinned_mask(region)
         for ic in range(len(region.contours)):
             a, b = region.contours[ic][2 * region.ny], ur.contours[ic][0]
-            wy = max(wy, float(np.hypot(a.R - b.R, a.Z - b.Z)))
-            ny_ += 1
-    if ny_:
-        out.append(rec("mem.shared_y_edge_points_coincide (own end point vs upper neighbour's first point)", cls, ny_, wy, 1e-7, sig="own end point and the upper neighbour's first point differ by up to %.1e m" % wy if wy > 1e-7 else None))
+            k = "through an X-point" if (ic % 2 == 0 and pm[ic // 2, -1]) else "ordinary"
+            wy[k] = max(wy[k], float(np.hypot(a.R - b.R, a.Z - b.Z)))
+            ny_[k] += 1
+    if ny_["ordinary"]:
+        out.append(rec("mem.shared_y_edge_points_coincide (own end point vs upper neighbour's first point)", cls, ny_["ordinary"], wy["ordinary"], 1e-7, sig="own end point and the upper neighbour's first point differ" if wy["ordinary"] > 1e-7 else None, note="max %.2e m; separatrix contours through an X-point (pinned in the output): %.2e m" % (wy["ordinary"], wy["through an X-point"])))
     # ---- (ii) BOUT++ reading of the integers vs the geometry in the file -------------
     t = Topo(nc)
     probs = t.ordering_problems()
@@ -148,12 +154,12 @@ def run(cap):
     dom = np.zeros(nyf, bool)
     dom[[t.fidx(j) for j in range(t.ny)]] = True
     if dx1.size:
-        out.append(rec("file.bout_x_neighbours_share_corners.domain", cls, int(dom.sum()) * (nx - 1) * 2, max(amax(dx1[:, dom]), amax(dx2[:, dom])), 1e-7))
+        out.append(rec("file.bout_x_neighbours_share_corners.domain", cls, int(dom.sum()) * (nx - 1) * 2, max(amax(dx1[:, dom]), amax(dx2[:, dom])), 1e-6))
         if (~dom).any():
             g = ~dom
             w = max(amax(dx1[:, g]), amax(dx2[:, g]))
-            rows = sorted(set(np.argwhere((dx1 > 1e-7) | (dx2 > 1e-7))[:, 1].tolist()))
-            out.append(rec("file.bout_x_neighbours_share_corners.guards", cls, int(g.sum()) * (nx - 1) * 2, w, 1e-7, sig=("rows %s" % rows) if w > 1e-7 else None))
+            rows = sorted(set(np.argwhere((dx1 > 1e-6) | (dx2 > 1e-6))[:, 1].tolist()))
+            out.append(rec("file.bout_x_neighbours_share_corners.guards", cls, int(g.sum()) * (nx - 1) * 2, w, 1e-6, sig=("rows %s" % rows) if w > 1e-6 else None))
     # the y-faces written in the file are the shared ones: ylow of the upper neighbour
     # lies between its lower corners (same flux surface row ordering)
     # ---- (iv) poloidal coordinates -----------------------------------------------------
